@@ -50,7 +50,7 @@ Steps == [any : BOOLEAN, f : XFields \cup {"none"}, i : XIndices \cup {0 - 1}, c
 P1 == {<<s>> : s \in Steps}
 S2 == {<<s, t>> : s \in RandomSubset(NPath2, Steps), t \in RandomSubset(NPath2, Steps)}
 S3 == {<<s, t, u>> : s \in RandomSubset(NPath3, Steps), t \in RandomSubset(NPath3, Steps), u \in RandomSubset(NPath3, Steps)}
-Variant(st, v, anyw) == [any |-> anyw, f |-> IF v = 2 THEN "none" ELSE st[1], i |-> IF v = 2 THEN 0 - 1 ELSE st[2],
+Variant(st, v, anyw) == [any |-> anyw, f |-> IF v \in {2, 4} THEN "none" ELSE st[1], i |-> IF v = 2 THEN 0 - 1 ELSE st[2],
                          c |-> IF v = 3 THEN "none" ELSE st[3]]
 DerivedOf(n) ==
     LET full == PathOf(h, Root, n)
@@ -61,7 +61,8 @@ DerivedOf(n) ==
                        IN Ord(1, <<>>)
         Mk(KK, v, base) == LET ix == Ordered(KK) IN
                            [j \in 1..Len(ix) |-> Variant(full[ix[j]], v, IF j = 1 THEN (ix[1] # 1 \/ base # 0) ELSE (ix[j] # ix[j - 1] + 1 \/ base = 1))]
-    IN {Mk(KK, v, base) : KK \in keeps, v \in {1, 2, 3}, base \in {0, 1, 2}}
+        Vs(KK) == {1, 2, 3} \cup (IF \E j \in KK : full[j][2] >= 0 THEN {4} ELSE {})      \* 4: index and class, no field
+    IN UNION {{Mk(KK, v, base) : v \in Vs(KK), base \in {0, 1, 2}} : KK \in keeps}
 Paths == P1 \cup S2 \cup S3 \cup UNION {DerivedOf(n) : n \in NS}
 
 XCase == [m |-> "lxpath", h |-> h, root |-> Root,
